@@ -27,14 +27,16 @@ AddTo(kind, v, x) ==
             ELSE Append(v, x)
 RemoveFrom(v, t) == SelectSeq(v, LAMBDA e : TypeOf(e) # t)
 
-\* op = [op, a, b, x]: "new" a | "clone" a -> b | "add" x to a | "remove" type x from a
+\* op = [op, a, b, x]: "new" a | "clone" a -> b | "add" x to a | "remove" type x from a |
+\* "take" a (consuming conversion: into_iter / Into<Vec<..>>; yields the value, the object is gone)
 Applicable(obj, o) ==
     CASE o.op = "new" -> TRUE
       [] o.op = "clone" -> obj[o.a] # Absent /\ o.a # o.b
-      [] o.op \in {"add", "remove"} -> obj[o.a] # Absent
+      [] o.op \in {"add", "remove", "take"} -> obj[o.a] # Absent
 ApplyOp(kind, obj, o) ==
     CASE o.op = "new" -> [obj EXCEPT ![o.a] = <<>>]
       [] o.op = "clone" -> [obj EXCEPT ![o.b] = obj[o.a]]
       [] o.op = "add" -> [obj EXCEPT ![o.a] = AddTo(kind, obj[o.a], o.x)]
       [] o.op = "remove" -> [obj EXCEPT ![o.a] = RemoveFrom(obj[o.a], o.x)]
+      [] o.op = "take" -> [obj EXCEPT ![o.a] = Absent]
 =============================================================================
